@@ -30,6 +30,19 @@ class EntryPoint(Harness):
         with world:
             loop = world.new_loop()
             world.peer_send = lambda sock, data, n: 0        # silent peer
+            if self.entry == "discover" and self.family:
+                # the AA55 discovery probe is answered by an inverter of the given family, everything else is lost
+                from .models import es_info_bytes
+                serial = {"ET": "9010KETU218W0001", "ES": "95048ESU218W0001", "DT": "9010KDTU218W0001"}[self.family]
+                info = es_info_bytes(serial)
+                head = bytes([0xAA, 0x55, 0x7F, 0xC0, 0x01, 0x82, len(info)]) + info
+                frame = head + sum(head).to_bytes(2, "big")
+
+                def peer(sock, data, n):
+                    if bytes(data)[:7] == bytes.fromhex("aa55c07f010200"):
+                        loop.call_later(0, lambda: sock.rx.append(frame))
+                    return 0
+                world.peer_send = peer
             exc = None
             try:
                 if self.entry == "connect":
@@ -64,11 +77,20 @@ class EntryPoint(Harness):
             fail("entry point transmitted nothing")
         if self.entry == "search":
             T, R = 1, 0
-        for d, times in self.groups(obs):
-            if len(times) != R + 1:
+        groups = self.groups(obs)
+        if self.entry == "discover" and self.family:
+            groups = [g for g in groups if not g[0].startswith(bytes.fromhex("aa55c07f010200"))]   # the answered probe
+            if not groups:
+                fail("discover did not continue with the detected family")
+        for d, times in groups:
+            # the same probe may be issued again by a later detection round (discover falls back to probing every
+            # family): a run of identical transmissions must consist of whole probes of retries+1 transmissions
+            if len(times) % (R + 1) != 0:
                 fail("a probe was not transmitted retries+1 times", f"{d.hex()}: {len(times)} transmissions, retries={R}")
-            for a, b in zip(times, times[1:]):
-                check(_eqz(b - a, T), "retransmissions of a probe are not `timeout` apart", f"{d.hex()}: {times}")
+            for c0 in range(0, len(times), R + 1):
+                chunk = times[c0:c0 + R + 1]
+                for a, b in zip(chunk, chunk[1:]):
+                    check(_eqz(b - a, T), "retransmissions of a probe are not `timeout` apart", f"{d.hex()}: {times}")
 
     def symbolic(self, ex):
         G = shimmed()
@@ -128,7 +150,8 @@ def tasks(tier, seed):
         ts = [t for t in ts if not (t["first"] == "two_fragments" and t["second"] == "two_fragments")]
         # the event-loop change in the quick tier: only with the light first kinds
         ts += [t for t in H.make_tasks(PROP, cfgs, ["drop", "answer", "peer_closes", "send_error"], PLANS[1:])]
-    ents = [("connect", "ET"), ("connect", "ES"), ("connect", "DT"), ("discover", None), ("search", None)]
+    ents = [("connect", "ET"), ("connect", "ES"), ("connect", "DT"), ("discover", None), ("search", None),
+            ("discover", "ET"), ("discover", "ES"), ("discover", "DT")]
     ts += [{"name": f"entry-{e}-{f}", "entry": e, "family": f} for e, f in ents]
     return ts
 
